@@ -87,3 +87,50 @@ def trk(prop, pre, qp, tp, reach):
 trk("C01", "c01.", {"K": 5, "S": 2, "L": 2}, {"K": 6, "S": 3, "L": 2}, ["trk.emitted", "trk.flush-many", "trk.history-end"])
 trk("C02", "c02.", {"K": 5, "S": 2, "L": 2}, {"K": 6, "S": 3, "L": 2}, ["trk.emitted", "trk.flush-many", "trk.history-end"])
 trk("C04", "c04.", {"K": 4, "S": 2, "L": 1, "WILD": 1}, {"K": 5, "S": 2, "L": 1, "WILD": 1}, ["trk.emitted", "trk.emitted-after-end", "trk.history-end"])
+
+# ---- C11: arbitrary lines
+kw = ["Accepted publickey", "Accepted password", "Certificate invalid", "Invalid user", "User ", "ROOT LOGIN REFUSED FROM",
+      "Authentication refused for", "Nasty PTR record", "reverse mapping checking getaddrinfo for", "Address ",
+      "maximum authentication attempts exceeded for", "Authentication key ", "Error checking authentication key", "Failed password for"]
+def c11runs(NQ, NT, TQ, TT):
+    runs = [run("arbitrary", SSHD, "VerifC11Arbitrary", q({"N": NQ}, ascii7=False), t({"N": NT}), reach=["c11.nothing"],
+                bounds="line: any bytes, 0..N; pid token: any bytes, 0..3")]
+    for i, k in enumerate(kw):
+        runs.append(run("kw%02d" % i, SSHD, "VerifC11Keyword", q({"K": i, "T": TQ}, ascii7=False), t({"K": i, "T": TT}), reach=["c11.nothing"],
+                        bounds="keyword %r + any bytes 0..T; pid token any bytes 0..3" % k))
+    return runs
+c11_assume = ["no write fault is injected here (C05 covers it)", "stubs: zap, prometheus, json.Marshal, uuid, time.Now",
+              "regex classes are checked per instruction to be uniform over non-ASCII runes, which makes the byte-level encoding exact for invalid UTF-8 as well"]
+write("C11", c11runs(24, 48, 28, 56), c11_assume, ["lines longer than the bounds ('very long lines')"], site_prefix="c11.")
+
+# ---- C05
+c05 = []
+for form, fname in ((0, "key"), (1, "cert"), (2, "password")):
+    for mode, mname in ((0, "buffered"), (1, "receiver"), (2, "cancelled-before"), (3, "cancelled-concurrently")):
+        qp = {"FORM": form, "MODE": mode, "U": 4, "A": 4, "K": 4, "I": 8, "PIDLEN": 3, "FIXLEN": 1}
+        tp = {"FORM": form, "MODE": mode, "U": 6, "A": 6, "K": 6, "I": 12, "PIDLEN": 6, "FIXLEN": 1 if (form == 1 or mode in (1, 3)) else 0}
+        reach = ["c05.returned", "c05.fault"] + (["c05.login"] if mode < 2 else ["c05.cancelled-returned"])
+        c05.append(run("%s-%s" % (fname, mname), SSHD, "VerifC05Accepted", q(qp), t(tp), reach=reach,
+                       bounds="accepted %s line, correlator %s; PID token 1..PIDLEN digits (not all zero); write fault symbolic" % (fname, mname)))
+write("C05", c05, ["failure / unrecognised lines never forward a login: asserted on every path of the C06, C11 and C17 harnesses (sites *.nologin, c11.no-login-without-event, c11.login-needs-success)",
+                   "schedules: every interleaving of the processor with the receiver / canceller goroutine at channel and mutex operations",
+                   "stubs: zap, prometheus, json.Marshal, uuid, time.Now, sync.Mutex/atomic (engine objects), context executed from its real source"],
+      ["PID tokens longer than PIDLEN digits", "field values longer than the stated maxima"], site_prefix="c05.")
+
+# ---- C14
+write("C14", [run("render", TRK, "VerifC14Render", {"params": {"R": 8}}, {"params": {"R": 12}, "cross_check": True}, reach=["c14.rendered"],
+                  bounds="result string any bytes 0..R; action/how 0..6, object fields 0..4, 0..2 process args of 0..4 bytes; 0..2 extra subject entries; login before or after the LOGIN record; two events per session")],
+      ["the coalesced event (what aucoalesce puts into Summary/Result/Process) is the input; stubs: zap, uuid, time.Now"],
+      ["aucoalesce's own summarisation of raw records", "more than two events per session (the emitted copy is mutated after each to expose aliasing)"], site_prefix="c14.")
+
+# ---- C18
+HEALTH = M + "/internal/health"
+write("C18", [run("sequential", HEALTH, "VerifC18Sequential", {"params": {"K": 4}}, {"params": {"K": 6}}, reach=["c18.response"],
+                  bounds="K operations from {register, mark ready, request} over three component names (re-registration included)"),
+              run("concurrent", HEALTH, "VerifC18Concurrent", {"params": {}, "preempt": 3}, {"params": {}}, reach=["c18.conc.response"],
+                  bounds="request || AddReadiness(x) || OnReady(y), x,y over three names; interleavings at lock granularity, preemption bound 3 (quick) / unbounded (thorough)"),
+              run("wait", HEALTH, "VerifC18Wait", {"params": {"TICKS": 2}, "preempt": 2}, {"params": {"TICKS": 3}}, reach=["c18.wait.ready", "c18.wait.cancelled"],
+                  bounds="WaitForReady against a ready-mark or a cancellation; at most 3 ticker ticks delivered at arbitrary schedule points")],
+      ["component names differ from the reserved key 'overall' (the handler overwrites it with the aggregate, which the statement permits)",
+       "json.Encoder.Encode is one Write of the encoded map (stub); time.Ticker delivers ticks at arbitrary points (environment thread)"],
+      ["more than three component names", "the HTTP server around the handler"], site_prefix="c18.")
